@@ -19,6 +19,10 @@ package playback
 //                                          track tables, or with damaged headers) with the real muxerFMP4 / muxerMP4, window
 //                                          spanning all of them; in-process under recover ("mgetx": capped child)
 //   e2e mget <k> <filehex>*k               the same through the real HTTP server in a child process
+//   e2e names <fmt> <k> <namehex>*k <filehex>   hostile FILE NAMES: record path with the placeholders of format <fmt> (%z, %s, %f, sub
+//                                          directories…); one valid segment under its proper name plus k foreign files whose names almost
+//                                          match (short/long fields, signs, colons, hour-only offsets, huge numbers, unicode digits);
+//                                          GET /list (with and without start) and GET /get through the real server in a child process
 //   e2e list <k> (<init-oracle> <filehex>)*k     CHILD PROCESS: real playback.Server (httpp server,
 //   e2e get <init-oracle> <events> <filehex>     handlerExitOnPanic, gin) + HTTP request; crash observed
 //
@@ -320,12 +324,39 @@ func verifC28CapAddressSpace() {
 
 // ---------- end-to-end in a child process ----------
 
+var verifC28NameFormats = []string{
+	"%Y-%m-%d_%H-%M-%S-%f",
+	"%Y-%m-%d_%H-%M-%S-%f_%z",
+	"%s-%f",
+	"%Y%m%d%H%M%S_%z_%f",
+	"%Y/%m/%d/%H-%M-%S-%f%z",
+	"seg_%z_%s_%f",
+}
+
 func verifC28E2E(f []string) string {
 	dir, err := os.MkdirTemp(verifC28TmpDir(), "e2e")
 	if err != nil {
 		panic(err)
 	}
 	defer os.RemoveAll(dir)
+	if f[0] == "names" {
+		format := verifC28NameFormats[verifutil.Atoi(f[1])]
+		k := verifutil.Atoi(f[2])
+		put := func(name string, b []byte) {
+			if name == "" || strings.Contains(name, "..") || strings.ContainsRune(name, 0) || strings.HasPrefix(name, "/") {
+				return
+			}
+			p := filepath.Join(dir, "p", name)
+			os.MkdirAll(filepath.Dir(p), 0o755) //nolint:errcheck
+			os.WriteFile(p, b, 0o644)           //nolint:errcheck
+		}
+		good := recordstore.Path{Start: time.Date(2020, 1, 1, 0, 0, 0, 0, time.Local)}.Encode(format) + ".mp4"
+		put(good, verifutil.UnHex(f[3+k]))
+		for i := 0; i < k; i++ {
+			put(verifutil.UnHexS(f[3+i]), []byte("foreign"))
+		}
+		return verifC28RunChild(dir, "names", "VERIF_C28_FMT="+format)
+	}
 	os.Mkdir(filepath.Join(dir, "p"), 0o755)
 	var files []string
 	switch f[0] {
@@ -350,12 +381,16 @@ func verifC28E2E(f []string) string {
 			panic(err)
 		}
 	}
-	cmd := exec.Command(os.Args[0], "-test.run", "^TestVerifC28Child$", "-test.count=1")
 	req := f[0]
 	if req == "mget" {
 		req = "get"
 	}
-	cmd.Env = append(os.Environ(), "VERIF_C28_CHILD="+dir, "VERIF_C28_REQ="+req, "VERIF_OUT=", "GOTRACEBACK=single")
+	return verifC28RunChild(dir, req)
+}
+
+func verifC28RunChild(dir string, req string, extraEnv ...string) string {
+	cmd := exec.Command(os.Args[0], "-test.run", "^TestVerifC28Child$", "-test.count=1")
+	cmd.Env = append(append(os.Environ(), "VERIF_C28_CHILD="+dir, "VERIF_C28_REQ="+req, "VERIF_OUT=", "GOTRACEBACK=single"), extraEnv...)
 	var so, se bytes.Buffer
 	cmd.Stdout = &so
 	cmd.Stderr = &se
@@ -364,6 +399,7 @@ func verifC28E2E(f []string) string {
 		panic(err)
 	}
 	go func() { done <- cmd.Wait() }()
+	var err error
 	select {
 	case err = <-done:
 	case <-time.After(60 * time.Second):
@@ -403,6 +439,10 @@ func TestVerifC28Child(t *testing.T) {
 	addr := l.Addr().String()
 	l.Close()
 
+	recordPath := recorder.VerifPathFormat(dir)
+	if ft := os.Getenv("VERIF_C28_FMT"); ft != "" {
+		recordPath = filepath.Join(dir, "%path", ft)
+	}
 	s := &Server{
 		Address:      addr,
 		ReadTimeout:  conf.Duration(10 * time.Second),
@@ -410,7 +450,7 @@ func TestVerifC28Child(t *testing.T) {
 		PathConfs: map[string]*conf.Path{
 			"p": {
 				Name:         "p",
-				RecordPath:   recorder.VerifPathFormat(dir),
+				RecordPath:   recordPath,
 				RecordFormat: conf.RecordFormatFMP4,
 			},
 		},
@@ -419,6 +459,28 @@ func TestVerifC28Child(t *testing.T) {
 	}
 	if err = s.Initialize(); err != nil {
 		t.Fatal(err)
+	}
+	if os.Getenv("VERIF_C28_REQ") == "names" {
+		// three requests against the hostile directory: /list, /list with start, /get
+		t0 := time.Date(2020, 1, 1, 0, 0, 0, 0, time.Local)
+		var codes []string
+		for _, q := range []string{
+			"/list?path=p",
+			"/list?path=p&start=" + url.QueryEscape(t0.Format(time.RFC3339)),
+			"/get?path=p&duration=10&start=" + url.QueryEscape(t0.Format(time.RFC3339)),
+		} {
+			res, err2 := http.Get("http://" + addr + q)
+			if err2 != nil {
+				codes = append(codes, "neterr")
+				continue
+			}
+			io.Copy(io.Discard, res.Body) //nolint:errcheck
+			res.Body.Close()
+			codes = append(codes, fmt.Sprint(res.StatusCode))
+		}
+		fmt.Println("VERIF-STATUS", strings.Join(codes, "-"))
+		s.Close()
+		return
 	}
 	v := url.Values{}
 	v.Set("path", "p")
@@ -575,6 +637,92 @@ func verifC28InitMulti() {
 
 // a directory for GET /get: segment #0 of one recording, then segments #1.. taken from recordings of the SAME stream id
 // with other track tables (ids missing / extra / swapped, other codecs and time scales), optionally with a damaged header
+// names that ALMOST match the record path format
+func verifC28HostileName(r *verifutil.Rand, format string) string {
+	t := time.Date(2020, 1, 1, 0, 0, 5+r.Intn(50), r.Intn(1000000)*1000, time.FixedZone("z", []int{0, 7200, -12600, 50400}[r.Intn(4)]))
+	name := recordstore.Path{Start: t}.Encode(format)
+	b := []rune(name)
+	digits := []int{}
+	for i, c := range b {
+		if c >= '0' && c <= '9' {
+			digits = append(digits, i)
+		}
+	}
+	zs := []string{"+02", "-02", "+2", "+02:00", "-02:30", "+0200:", "+:", "+", "-", "Z0", "z", "+020", "+02000", "+99:99", "+\u0660\u0662\u0660\u0660"}
+	switch r.Intn(12) {
+	case 0, 1: // hour-only / colon / odd offsets in place of a proper %z (or appended when the format has none)
+		z := zs[r.Intn(len(zs))]
+		z = strings.ReplaceAll(z, "\\u0660", "\u0660")
+		z = strings.ReplaceAll(z, "\\u0662", "\u0662")
+		replaced := false
+		for _, old := range []string{"+0200", "-0330", "+1400", "Z"} {
+			if i := strings.LastIndex(name, old); i >= 0 {
+				name = name[:i] + z + name[i+len(old):]
+				replaced = true
+				break
+			}
+		}
+		if !replaced {
+			name += "_" + z
+		}
+		return name + ".mp4"
+	case 2: // one digit less
+		if len(digits) > 0 {
+			i := digits[r.Intn(len(digits))]
+			b = append(b[:i], b[i+1:]...)
+		}
+	case 3: // one digit more
+		if len(digits) > 0 {
+			i := digits[r.Intn(len(digits))]
+			b = append(b[:i], append([]rune{'7'}, b[i:]...)...)
+		}
+	case 4: // unicode digit
+		if len(digits) > 0 {
+			b[digits[r.Intn(len(digits))]] = []rune{'\u0663', '\uff15', '\u06f7', '\u0967'}[r.Intn(4)]
+		}
+	case 5: // huge numbers
+		if len(digits) > 0 {
+			i := digits[r.Intn(len(digits))]
+			b = append(b[:i], append([]rune("99999999999999999999"), b[i:]...)...)
+		}
+	case 6: // sign in front of a field
+		if len(digits) > 0 {
+			i := digits[r.Intn(len(digits))]
+			b = append(b[:i], append([]rune{[]rune("+-")[r.Intn(2)]}, b[i:]...)...)
+		}
+	case 7: // all nines / zeros
+		for _, i := range digits {
+			b[i] = []rune("90")[r.Intn(2)]
+		}
+	case 8: // separator changed
+		for i, c := range b {
+			if (c == '-' || c == '_') && r.Chance(1, 3) {
+				b[i] = []rune(":. +")[r.Intn(4)]
+			}
+		}
+	case 9:
+		return string(b) + ".mp4.tmp"
+	case 10:
+		return string(b) + "+02.mp4"
+	default:
+		return string(b[:r.Intn(len(b)+1)]) + ".mp4"
+	}
+	return string(b) + ".mp4"
+}
+
+func verifC28NamesOp(r *verifutil.Rand) string {
+	verifC28InitBases()
+	fi := r.Intn(len(verifC28NameFormats))
+	k := 1 + r.Intn(6)
+	var sb strings.Builder
+	fmt.Fprintf(&sb, "names %d %d", fi, k)
+	for i := 0; i < k; i++ {
+		sb.WriteString(" " + verifutil.HexS(verifC28HostileName(r, verifC28NameFormats[fi])))
+	}
+	sb.WriteString(" " + verifutil.Hex(verifC28Bases[0].data))
+	return sb.String()
+}
+
 func verifC28MgetOp(r *verifutil.Rand, e2e bool) string {
 	verifC28InitMulti()
 	specs := []string{"va", "av", "a", "v", "vab", "wa", "vb"}
@@ -1019,8 +1167,11 @@ func verifC28Gen(r *verifutil.Rand, i int, thorough bool) []string {
 		e2eEvery = 150
 	}
 	if i%e2eEvery == e2eEvery-1 {
-		if (i/e2eEvery)%3 == 2 {
+		switch (i / e2eEvery) % 4 {
+		case 2:
 			return []string{"e2e " + verifC28MgetOp(r, true)}
+		case 3:
+			return []string{"e2e " + verifC28NamesOp(r)}
 		}
 		return []string{verifC28GenE2E(r, src, base, hl)}
 	}
@@ -1236,6 +1387,21 @@ func TestVerifC28MkCorpus(t *testing.T) {
 		out = append(out, fmt.Sprintf("e2e %s 1 %s %s", v, verifC28InitOracle(a1c.data), verifutil.Hex(a1c.data)))
 	}
 	out = append(out, fmt.Sprintf("e2e listA 2 %s %s %s %s", verifC28InitOracle(a1c.data), verifutil.Hex(a1c.data), verifC28InitOracle(va3c.data), verifutil.Hex(va3c.data)))
+	out = append(out, "# round 4 (seed C28-7): hostile file NAMES for every placeholder: hour-only / colon offsets, short, long, unicode")
+	for fi, names := range [][]string{
+		{"2021-12-02_13-15-23-567324_+02.mp4", "2021-12-02_13-15-23-567324.mp4.tmp", "2021-12-02_13-15-23-5673240.mp4"},
+		{"2021-12-02_13-15-23-567324_+02.mp4", "2021-12-02_13-15-23-567324_+02:00.mp4", "2021-12-02_13-15-23-567324_-2.mp4", "2021-12-02_13-15-23-567324_+.mp4"},
+		{"99999999999999999999-567324.mp4", "163844852-567324.mp4", "1638448523-56732\u0664.mp4"},
+		{"20211202131523_+02_567324.mp4", "20211202131523_+02:00_567324.mp4", "20211202131523_Z0_567324.mp4"},
+		{"2021/12/02/13-15-23-567324+02.mp4", "2021/12/02/13-15-23-567324+02:00.mp4", "2021/12/2/13-15-23-567324Z.mp4"},
+		{"seg_+02_1638448523_567324.mp4", "seg_+02:00_1638448523_567324.mp4", "seg_-_1638448523_567324.mp4"},
+	} {
+		line := fmt.Sprintf("e2e names %d %d", fi, len(names))
+		for _, n := range names {
+			line += " " + verifutil.HexS(n)
+		}
+		out = append(out, line+" "+verifutil.Hex(a1c.data))
+	}
 	zero := make([]byte, 300)
 	for _, v := range []string{"lists", "liste", "listse"} {
 		out = append(out, fmt.Sprintf("e2e %s 1 %s %s", v, verifC28InitOracle(zero), verifutil.Hex(zero)))
